@@ -1,0 +1,27 @@
+//go:build verif
+
+// Contracts for the govc verifier (/verif). Comment-only; compiled only with -tags verif.
+
+package embed
+
+// C19: the id of a placeholder is a section of the URL PATH (trimmed), never anything else (query values,
+// fragments, attributes), or empty.
+//@ func (*YouTubeExtractor).getDataFromSrcURL(srcURL)
+//@   requires ye != nil
+//@   ensures [C19] #id-is-a-path-section result0 == "" || exists(i, 0 <= i && i < len(pathParts), result0 == strings.TrimSpace(pathParts[i]))
+//@   loop 0 invariant -1 <= i && i < len(pathParts) && videoID == ""
+//@   loop 0 decreases i + 1
+//@   loop 1 invariant params != nil && (videoID == "" || exists(k, 0 <= k && k < len(pathParts), videoID == strings.TrimSpace(pathParts[k])))
+
+//@ func (*VimeoExtractor).getDataFromSrcURL(srcURL)
+//@   requires ve != nil
+//@   ensures [C19] #id-is-a-path-section result0 == "" || exists(i, 0 <= i && i < len(pathParts), result0 == strings.TrimSpace(pathParts[i]))
+//@   loop 0 invariant -1 <= i && i < len(pathParts) && videoID == ""
+//@   loop 0 decreases i + 1
+//@   loop 1 invariant params != nil && (videoID == "" || exists(k, 0 <= k && k < len(pathParts), videoID == strings.TrimSpace(pathParts[k])))
+
+//@ func (*TwitterExtractor).getTweetIdFromURL(tweetURL)
+//@   requires te != nil
+//@   ensures [C19] #id-is-a-path-section result == "" || exists(i, 0 <= i && i < len(pathParts), result == strings.TrimSpace(pathParts[i]))
+//@   loop 0 invariant -1 <= i && i < len(pathParts)
+//@   loop 0 decreases i + 1
